@@ -174,7 +174,7 @@ FinalChecks(ln) ==
     IF ~ln.complete THEN "builder did not finish this cell"
     ELSE IF pc # "done" /\ Cands \ visited # {} THEN "builder stopped before the candidate stream was exhausted or the safety radius reached"
     ELSE IF ln.hasverts /\ TriSet(ln.verts) # VertTriples THEN "final vertex triples differ from the replayed state"
-    ELSE IF ~(\A v \in verts : \A q \in Cands : Side(v.h, CandPlane(q)) >= 0) THEN "a final vertex is closer to another generator (cell is not the nearest-generator region)"
+    ELSE IF ~FinalAt(RadUB) THEN "a final vertex is closer to another generator (cell is not the nearest-generator region)"
     ELSE IF ~Closed THEN "final dual triangulation is not a closed surface"
     ELSE IF ~Euler THEN "Euler relation fails"
     ELSE IF ~Oriented THEN "a vertex triple is not counter-clockwise"
